@@ -42,7 +42,11 @@ impl Record {
 
     pub fn alignment_end(&self) -> Option<Position> {
         self.alignment_start.and_then(|start| {
-            let end = usize::from(start) + self.alignment_span() - 1;
+            // A record that consumes no reference bases, e.g., `4S`, still occupies its alignment
+            // start. Otherwise, the end precedes the start, and the reference sequence context
+            // has no valid alignment span.
+            let span = self.alignment_span().max(1);
+            let end = usize::from(start) + span - 1;
             Position::new(end)
         })
     }
